@@ -32,7 +32,7 @@ def chunks(tier, seed):
                                                ncomp=6 if tier == 'quick' else 40)]))
     n5 = 200 if tier == 'quick' else 4000
     for k in range(0, n5, 25):
-        out.append(('case_sampled', [dict(seed=seed * 7 + k, count=25, nvars=4 + (k // 25) % 2)]))
+        out.append(('case_sampled', [dict(seed=seed * 7 + k, count=25, nvars=4 + (k // 25) % 2, dyn=(k // 50) % 2)]))
     return out
 
 
@@ -132,7 +132,12 @@ def case_sampled(c, res):
     m = A.BDD({nm: k for k, nm in enumerate(o)})
     b = m._bdd
     warm_up(b, names, rnd, steps=20)
-    d = Den(b, names)
+    dyn = bool(c.get('dyn'))
+    if dyn:
+        # dynamic reordering enabled with a small threshold: operands below are referenced
+        m.configure(reordering=True)
+        b._last_len = rnd.choice([1, 2, 4, 8])
+    d = Den(b, names) if not dyn else type('D', (), {'of': staticmethod(lambda u: den(b, u, names)), 'reset': staticmethod(lambda: None)})
     n = len(names)
     F = full(n)
     keys = []
